@@ -238,7 +238,9 @@ int main(int argc, char** argv)
         }
         g_done = true;
         flush_report();
-        return bad;
+        fflush(stdout);
+        fflush(stderr);
+        _exit(bad); // harness statics (live servers, clients) are not torn down
     }
 
     if (mode == "enum")
@@ -265,7 +267,9 @@ int main(int argc, char** argv)
             }
         }
         flush_report();
-        return r;
+        fflush(stdout);
+        fflush(stderr);
+        _exit(r);
     }
 
     if (mode == "rc")
